@@ -100,7 +100,12 @@ def log(*a):
 
 def build(harness, flavours):
     targets = ["build/%s/%s" % (f, harness) for f in flavours]
-    p = subprocess.run(["make", "-C", VERIF, "-j%d" % NCPU, "--no-print-directory"] + targets,
+    extra = []
+    if os.environ.get("VERIF_REPO"):
+        # experiments on a snapshot of the repository (vp run --with-repo); the registered
+        # commands never set this and always build from /repo's working tree
+        extra = ["REPO=" + os.environ["VERIF_REPO"]]
+    p = subprocess.run(["make", "-C", VERIF, "-j%d" % NCPU, "--no-print-directory"] + extra + targets,
                        stdout=subprocess.PIPE, stderr=subprocess.STDOUT, text=True)
     if p.returncode != 0:
         log(p.stdout[-6000:])
